@@ -24,6 +24,20 @@ from nix_manipulator.expressions.trivia import (
 MAX_INLINE_LIST_WIDTH = 100
 
 
+def _render_list_item(expr: NixExpression, *, indent: int, inline: bool) -> str:
+    """Render one list element; a negative number literal needs parentheses
+    (`[ -1 ]` is a syntax error, list elements are not full expressions)."""
+    rendered = expr.rebuild(indent=indent, inline=inline)
+    if expr.before or expr.after:
+        return rendered
+    stripped = rendered.lstrip(" ")
+    is_number = type(expr).__name__ in ("IntegerPrimitive", "FloatExpression")
+    if is_number and stripped.startswith("-"):
+        padding = rendered[: len(rendered) - len(stripped)]
+        return f"{padding}({stripped})"
+    return rendered
+
+
 def process_list(node: Node):
     """Parse a list node into values and inner trivia."""
     from nix_manipulator.mapping import tree_sitter_node_to_expression
@@ -134,7 +148,7 @@ class NixList(TypedExpression):
         if not self.value:
             return "[ ]"
         items = [
-            coerce_expression(item).rebuild(indent=indent, inline=True)
+            _render_list_item(coerce_expression(item), indent=indent, inline=True)
             for item in self.value
         ]
         return f"[ {' '.join(items)} ]"
@@ -190,7 +204,7 @@ class NixList(TypedExpression):
         def render_item(item: NixExpression | str | int | bool | float | None) -> str:
             """Render list items consistently based on multiline decision."""
             expr = coerce_expression(item)
-            return expr.rebuild(indent=indented, inline=not multiline)
+            return _render_list_item(expr, indent=indented, inline=not multiline)
 
         items = [render_item(item) for item in self.value]
 
